@@ -2,6 +2,7 @@ from numbers import Number
 from itertools import product
 from qbee import grammar
 from qbee.evalctx import EvaluationContext, Routine, EvalError
+from qbee.program import Program
 from .memlayout import (
     get_global_var_idx, get_local_var_idx, get_type_size
 )
@@ -133,8 +134,25 @@ class QvmEval(EvaluationContext):
         self.global_vars = global_vars
         self.find_routine_func = find_routine_func
 
+    def get_node_routine(self, node):
+        # An expression typed at the debugger prompt is not part of the
+        # program tree; it is evaluated in the routine of the current
+        # frame, so that its names resolve to that routine's
+        # parameters, locals, arrays and constants.
+        top = node
+        while getattr(top, 'parent', None) is not None:
+            top = top.parent
+        if isinstance(top, Program):
+            return super().get_node_routine(node)
+        frame = self.cpu.cur_frame
+        if frame is None:
+            return self.main_routine
+        return self.find_routine_func(frame.code_start)
+
     def eval_lvalue(self, lvalue):
         frame = self.cpu.cur_frame
+        if frame is None:
+            raise EvalError('No stack frame')
         routine = self.find_routine_func(frame.code_start)
         if (lvalue.base_var in self.global_consts or lvalue.base_var in routine.local_consts) and \
            (lvalue.array_indices or lvalue.dotted_vars):
